@@ -183,7 +183,11 @@ def _apply_unit(repo: str, header: str, body_lines: List[str], tpl_name: str) ->
         if s.startswith("//@"):
             d = s[3:].strip()
             cur = None
-            if d.startswith("rw?:") or d.startswith("rw:"):
+            if d.startswith("sigrw:"):
+                rule = d.split(":", 1)[1]
+                p, r = rule.split("==>", 1)
+                sections.append(("sigrw", p.strip(), [r.strip()]))
+            elif d.startswith("rw?:") or d.startswith("rw:"):
                 optional = d.startswith("rw?:")
                 rule = d.split(":", 1)[1]
                 if "==>" not in rule:
@@ -306,6 +310,13 @@ def _apply_unit(repo: str, header: str, body_lines: List[str], tpl_name: str) ->
     for kind, arg, lines in sections:
         if kind == "sig":
             sig = arg
+    for kind, arg, lines in sections:
+        if kind == "sigrw":
+            sig2, n = rt.rewrite(sig, arg, lines[0])
+            if n == 0:
+                raise ExtractError("%s: signature rewrite pattern not found in %s (%s): %s" % (uid, info.item, info.file, arg))
+            info.rewrites.append(("signature: " + arg + " ==> " + lines[0], n))
+            sig = sig2
     for kind, arg, lines in sections:
         if kind in ("rw", "rw?"):
             whole = sig + "\x01" + body
